@@ -73,6 +73,7 @@ func VerifH_file_serve4() {
 	r, stop := Handler4(req, resp)
 	vnd.Unshare()
 
+	vnd.Assert(r != nil || stop, "C13 a built-in handler returns a nil response only together with stop")
 	vnd.Assert(vnd.HeldLocks() == 0, "C16 file plugin read lock released")
 	vnd.Assert(r == resp, "C10 file4 passes the response object on")
 	if want != nil {
@@ -141,6 +142,7 @@ func VerifH_file_serve6() {
 	r, stop := Handler6(req, resp)
 	vnd.Unshare()
 
+	vnd.Assert(r != nil || stop, "C13 a built-in handler returns a nil response only together with stop")
 	vnd.Assert(vnd.HeldLocks() == 0, "C16 file plugin read lock released")
 	vnd.Assert(r == dhcpv6.DHCPv6(resp) && !stop, "C10 file6 passes the response on")
 	nas := resp.Options.Get(dhcpv6.OptionIANA)
